@@ -31,6 +31,10 @@ static void tag_entry(OPN2::Bank *b, unsigned idx, unsigned tag, bool blank, uns
 // ---- melodic: banks (1,2) "exact", (1,0) "lsb cleared", (0,0) "bank 0"; the channel selects (msb,lsb)
 __attribute__((optnone, noinline)) static void melodic_case(unsigned msb, unsigned lsb, bool blankExact, bool blankLsb0, bool blank0)
 {
+    // the symbolic inputs the assertions depend on are read first: the values of a sliced counterexample trace stay aligned in the replay
+    // (tag_entry reads further nondet values, most of which it overwrites and which the slicer therefore drops from the trace)
+    unsigned char key = nondet_uchar(), vel = nondet_uchar();
+    VASSUME(key <= 127 && vel >= 1 && vel <= 127);
     g_dev = opn2_init(44100);
     VASSUME(g_dev != NULL);
     g_p = player_of(g_dev);
@@ -38,8 +42,6 @@ __attribute__((optnone, noinline)) static void melodic_case(unsigned msb, unsign
     tag_entry(forge_bank(g_p, 0x0102), PROG, T_EXACT, blankExact, 0);
     tag_entry(forge_bank(g_p, 0x0100), PROG, T_LSB0, blankLsb0, 0);
     tag_entry(forge_bank(g_p, 0x0000), PROG, T_BANK0, blank0, 0);
-    unsigned char key = nondet_uchar(), vel = nondet_uchar();
-    VASSUME(key <= 127 && vel >= 1 && vel <= 127);
     opn2_rt_bankChange(g_dev, 0, (OPN2_SInt16)((msb << 8) | lsb));
     opn2_rt_patchChange(g_dev, 0, PROG);
     unsigned w0 = g_tap.writes;
@@ -72,7 +74,9 @@ __attribute__((optnone, noinline)) static void melodic_case(unsigned msb, unsign
 
 extern "C" __attribute__((optnone, noinline)) void harness_melodic(void)
 {
-#ifdef SEL
+#if defined(SEL) && defined(BL)
+    unsigned sel = SEL, bl = BL;                      // bank pair AND blank pattern fixed per obligation (one scenario per solver run)
+#elif defined(SEL)
     unsigned sel = SEL, bl = nondet_uchar() % 8;      // bank pair fixed per obligation (memory)
 #else
     unsigned sel = nondet_uchar() % 5, bl = nondet_uchar() % 8;
@@ -99,6 +103,8 @@ extern "C" __attribute__((optnone, noinline)) void harness_melodic(void)
 // ---- percussion: channel 9; the program selects the kit, the key selects the entry, the drum key fixes the pitch
 __attribute__((optnone, noinline)) static void perc_case(unsigned program, unsigned msb, bool kitBlank, bool kit0Blank)
 {
+    unsigned char vel = nondet_uchar();            // read first (replay alignment, see melodic_case)
+    VASSUME(vel >= 1 && vel <= 127);
     g_dev = opn2_init(44100);
     VASSUME(g_dev != NULL);
     g_p = player_of(g_dev);
@@ -108,8 +114,6 @@ __attribute__((optnone, noinline)) static void perc_case(unsigned program, unsig
     tag_entry(forge_bank(g_p, OPN2::PercussionTag | 5), KEY, T_PERC_KIT, kitBlank, 61);
     tag_entry(forge_bank(g_p, OPN2::PercussionTag | (128 + 5)), KEY, T_SFX, kitBlank, 62);
     tag_entry(forge_bank(g_p, 0x0000), KEY, T_BANK0, false, 0);           // a melodic bank must never be used here
-    unsigned char vel = nondet_uchar();
-    VASSUME(vel >= 1 && vel <= 127);
     opn2_rt_bankChange(g_dev, 9, (OPN2_SInt16)(msb << 8));
     opn2_rt_patchChange(g_dev, 9, (OPN2_UInt8)program);
     int r = opn2_rt_noteOn(g_dev, 9, KEY, vel);
@@ -129,7 +133,9 @@ __attribute__((optnone, noinline)) static void perc_case(unsigned program, unsig
 
 extern "C" __attribute__((optnone, noinline)) void harness_perc(void)
 {
-#ifdef SEL
+#if defined(PCASE)
+    unsigned sel = PCASE;                             // one case per obligation (one scenario per solver run)
+#elif defined(SEL)
     unsigned sel = SEL * 4 + nondet_uchar() % 4;      // four cases per obligation
 #else
     unsigned sel = nondet_uchar() % 12;
@@ -156,6 +162,8 @@ extern "C" __attribute__((optnone, noinline)) void harness_perc(void)
 // channel a percussion channel; after a GS reset the channel is melodic again (GS has no such rule)
 extern "C" __attribute__((optnone, noinline)) void harness_gsreset(void)
 {
+    unsigned char vel = nondet_uchar(), cc0 = nondet_uchar();      // read first (replay alignment, see melodic_case)
+    VASSUME(vel >= 1 && vel <= 127);
     g_dev = opn2_init(44100);
     VASSUME(g_dev != NULL);
     g_p = player_of(g_dev);
@@ -165,9 +173,7 @@ extern "C" __attribute__((optnone, noinline)) void harness_gsreset(void)
     tag_entry(forge_bank(g_p, OPN2::PercussionTag | 0), 60, T_PERC, false, 60);
     tag_entry(forge_bank(g_p, OPN2::PercussionTag | PROG), 60, T_PERC_KIT, false, 60);
     static const unsigned char gs_reset[11] = { 0xF0, 0x41, 0x10, 0x42, 0x12, 0x40, 0x00, 0x7F, 0x00, 0x41, 0xF7 };
-    unsigned char vel = nondet_uchar();
-    VASSUME(vel >= 1 && vel <= 127);
-    if(nondet_uchar() & 1) opn2_rt_controllerChange(g_dev, 0, 0, 126); else opn2_rt_controllerChange(g_dev, 0, 0, 127);
+    if(cc0 & 1) opn2_rt_controllerChange(g_dev, 0, 0, 126); else opn2_rt_controllerChange(g_dev, 0, 0, 127);
     VASSERT(g_p->m_midiChannels[0].is_xg_percussion, "XG bank MSB 126/127 makes the channel a percussion channel");
     VASSERT(opn2_rt_systemExclusive(g_dev, gs_reset, sizeof gs_reset) == 1, "GS reset accepted");
     opn2_rt_bankChange(g_dev, 0, 0x0100);
